@@ -20,6 +20,8 @@ DECIDED = ('(a) the three places that decide whether a tree node still carries s
            'invoked in that order with the matched prefix, and the look-back restores copies.')
 DECIDED_MORE = ("Also: no rejection after the first store into a route's method table; the PARAMS slot is written only when a route is stored; a memo kept by resolve() is dropped by every tree-editing method.")
 DECIDED = DECIDED + ' ' + DECIDED_MORE
+DECIDED_R6 = ('Round 6: a node is folded into its child only for exactly one child; every (name, route) is examined on removal; the hook set installed and the one the tree delivers are one object.')
+DECIDED = DECIDED + ' ' + DECIDED_R6
 NOT_DECIDED = ('equality with a freshly built router over all edit histories (correctness of node splitting / merging beyond '
                'the pairing rules); prefix-wildcard removal of hooks (specified for routes only).')
 ASSUMPTIONS = ['list/dict operations behave as in CPython']
